@@ -1,5 +1,7 @@
 """rvc.sym -- symbolic-mode implementation of the contract API and the unit runner."""
-import time, traceback, os, json, math
+import time, traceback, os, json, math, sys
+TRACE = bool(os.environ.get('RVC_TRACE'))
+TRACE_DIR = os.environ.get('RVC_TRACE_DIR')
 from fractions import Fraction
 import numpy as _np
 import z3
@@ -346,6 +348,13 @@ def run_unit(unit, tier='quick'):
     E.loop_bounds = unit.opts.get('loop_bounds', {})
     E.used_pi = False
     E.used_e = False
+    from . import cas
+    if unit.opts.get('cas', True):
+        E.hooks['cut_sqrt'] = lambda t: cas.sqrt_cut(t, E)
+        E.hooks['cut_div'] = lambda t, a, b: cas.div_cut(t, a, b, E)
+    else:
+        E.hooks.pop('cut_sqrt', None)
+        E.hooks.pop('cut_div', None)
 
     def run():
         ctx._reset_path()
@@ -373,13 +382,16 @@ def run_unit(unit, tier='quick'):
             pass
 
     try:
-        paths = explore(run, assume=[], on_path=on_path, max_paths=unit.opts.get('max_paths', 3000))
+        paths = explore(run, assume=[], on_path=on_path, max_paths=unit.opts.get('max_paths', 3000),
+                        prefix=[ch == 'T' for ch in unit.params.get('shard', '')])
     except EngineUnsupported as ex:
         res['status'] = 'unsupported'
         res['notes'].append(f"EngineUnsupported: {ex}")
         res['wall_s'] = time.time() - t0
         return res
     res['explore_s'] = time.time() - t0
+    if TRACE:
+        print(f"[trace] {unit.uid}: explored {len(paths)} paths in {res['explore_s']:.1f}s {E.stats}", file=sys.stderr, flush=True)
     res['paths'] = len(paths)
     res['engine_stats'] = dict(E.stats)
 
@@ -435,6 +447,8 @@ def run_unit(unit, tier='quick'):
                 hy = list(p.assume[:name.nassume]) + list(p.pc) + list(p.defs) + list(p.extra)
             sh = safety_hyps if kind != 'safety' else ()
             r = prove(hy, g, timeout_ms, sh)
+            if TRACE:
+                print(f"[trace] path {pi} {str(name)}: {r['verdict']} by {r['by']} {r['secs']:.2f}s", file=sys.stderr, flush=True)
             if r['verdict'] != 'proved' and links:
                 # generalised query failed: retry with the definitions behind the summaries revealed
                 r2 = prove(hy + links, g, timeout_ms, sh)
@@ -459,7 +473,10 @@ def run_unit(unit, tier='quick'):
                 o['detail'].append(f"undecided on path {cover['taken']}")
     live = [c for c in res['covers'] if not c.get('dropped')]
     if not live:
-        res['status'] = 'vacuous'
+        if unit.params.get('shard'):
+            res['notes'].append('empty shard (forced prefix infeasible)')
+        else:
+            res['status'] = 'vacuous'
     res['obligations'] = agg
     res['wall_s'] = time.time() - t0
     return res
